@@ -154,8 +154,12 @@ int main(int argc, char **argv) {
         rc = sc == 31 ? _wcsicmp_s_chk(L"Straße", 10, ffi, 9, &r, (size_t)-1, (size_t)-1) : _wcsicmp_s_chk(ffi, 9, L"STRASSE", 10, &r, (size_t)-1, (size_t)-1);
         failure = rc != 0; cleared = 1;
     } break;
-    case 33: { int r = 99; rc = _wcsnatcmp_s_chk(L"file10", 10, L"FILE9", 2, 1, &r, (size_t)-1, (size_t)-1); failure = rc != 0; cleared = 1; } break;
-    case 34: { int r = 99; rc = _wcsnatcmp_s_chk(L"file10", 2, L"FILE9", 10, 1, &r, (size_t)-1, (size_t)-1); failure = rc != 0; cleared = 1; } break;
+    case 33: case 34: { /* the same for the natural-order comparison with case folding */
+        int r = 99;
+        static const wchar_t ffi[] = {0xFB03, 0xFB03, 0xFB03, 0xFB03, 0xFB03, 0xFB03, 0xFB03, 0xFB03, 0};
+        rc = sc == 33 ? _wcsnatcmp_s_chk(L"file10", 10, ffi, 9, 1, &r, (size_t)-1, (size_t)-1) : _wcsnatcmp_s_chk(ffi, 9, L"FILE9", 10, 1, &r, (size_t)-1, (size_t)-1);
+        failure = rc != 0; cleared = 1;
+    } break;
     default: fprintf(stderr, "unknown scenario\n"); return 2;
     }
     armed = 0;
